@@ -82,8 +82,8 @@ CLAIMS.update({
             "Coq proof (stream simulation + per-message theorems) + stream-vs-individual oracle + correspondence", "4 C09"),
     "C10": ("proof", "Proved for every decoder function, both modes, all tables, all states: appending input leaves every run that did not stop for lack of input unchanged and extends the others (the decoder learns about its input only by asking for the next byte); hence for ALL inputs the events of a prefix are a prefix of the events of the whole input; every event is reported with min(len, bytes received + 1) bytes pulled. Independence of the iterable kind is not a theorem: correspondence with seven source kinds. Oracle: look-ahead, prefix stability, complete fields at random and boundary cuts.",
             "Coq proof (incrementality by structural induction, lifted through the pump) + cut oracle + source-kind runs", "4 C10"),
-    "C11": ("other", "events_to_obj / obj_to_events are not modelled. Decided on the implementation: by-product object == object rebuilt from events, both turn back into exactly the decoded events (paths, declared types, values and value classes), re-encoding gives the input, for generated well-formed encodings of every type, command and response incl. empty TPM2B payloads, null union arms, encrypted parameters; the by-product object is tied to the Coq model by correspondence. Proved (field level only): the by-product value of a primitive field is the value of its event.",
-            "differential conversions on the implementation + model correspondence on the by-product object; one field-level Coq lemma", "4 C11"),
+    "C11": ("proof", "PROVED (obj_to_events of common/object.py is modelled in coq/Model/Object.v; every structure type whose classes have distinct attribute names, commands, responses - all tables passing msg_named, which the regenerated ones do by computation; EVERY input strict decoding accepts): the object the decoder returns, turned back into events, is exactly the decoded event list - same length, paths, declared types and values, with structure, list and placeholder events; absent optional parts stay absent (empty payload of a size-prefixed structure = its one placeholder event; union members without payload, the session area / parameterSize of a message without sessions and everything after the response code of a failed response yield nothing); with C02 re-encoding the object yields the input bytes (Proofs/ObjEv.v: induction over the layout descriptors on completed strict runs, then field by field through the command and response decoders, incl. the synthesized encrypted-parameter class). NOT proved, not modelled: events_to_obj (path trie + class lookup) - 'the object rebuilt from the events equals the decoder's object' and value classes are decided on the implementation: by-product == rebuilt (Python ==), both turn back into exactly the decoded events (paths, declared types, values and value classes), re-encoding gives the input, on generated well-formed encodings of every type, command and response incl. empty TPM2B payloads, null union arms, encrypted parameters. Tie to /repo: correspondence on the by-product object and on obj_to_events of it." + PART % "C11",
+            "Coq proof (obj_to_events . decode = events, all accepted inputs) + differential conversions on the implementation + model correspondence on the by-product object and its obj_to_events", "4 C11"),
     "C13": CLAIMS["C13"],
     "C14": ("proof", "Proved for every event list (either mode) on which the printer does not fail (byte-buffer elements are primitive events): the hex column concatenated over all rows is the concatenation of the bytes of the primitive events in order; what the row of a primitive shows (type, indentation = path depth, name, bytes, text form). Not yet proved: the row/event bijection and that decoder output has the required shape. Oracle: rows parsed from the real pretty output against the events (one row per structure/primitive/warning event in order, one per byte buffer, hex column), events printer one line per event, neither raises; correspondence compares every row incl. bit rows and value text." + PART % "C14",
             "Coq proof (printer as list function) + row oracle + correspondence", "4 C14"),
